@@ -284,7 +284,7 @@ int hx_mutate_main(int argc, char **argv) {
         hx_result r;
         hx_result_init(&r);
         hx_current_case = &c;
-        alarm(120);
+        alarm(touch_all ? 90 : 30);      /* per-case watchdog (memcheck runs are ~30x slower) */
         if (touch_all) c.cfg[CF_DUMP] = HX_DUMP_TX | HX_DUMP_BODY | HX_DUMP_EVENTS | HX_DUMP_LOG;
         uint64_t edges_before = hx_edge_new;
         hx_run(&c, &r);
